@@ -83,7 +83,15 @@ def run_kind(kind, scn, host, bound=25):
             box['ctor'] = repr(e)
             return
         try:
-            box['waited'] = w.wait(timeout=bound - 5)
+            if scn.get('waitmode') == 'sliced':
+                # a caller waiting in short slices: the first True is the observation of death
+                import time
+                t0 = time.time()
+                box['waited'] = False
+                while not box['waited'] and time.time() - t0 < bound - 5:
+                    box['waited'] = w.wait(timeout=0.25)
+            else:
+                box['waited'] = w.wait(timeout=bound - 5)
             box['he'] = w.has_error
             box['res'] = w.result
             box['err'] = w.error
